@@ -12,5 +12,5 @@ USED
 Your task:
 """
 for k in ["C01","C02","C03","C04","C05","C06","C07","C08","C15","C17"]:
-    open(f'/tmp/agent-prompt-{k}-v.txt','w').write(t.replace("Your task:\n", extra.replace("USED","\n".join(used.get(k,[])))))
-print(open('/tmp/agent-prompt-C06-v.txt').read()[2600:4200])
+    open(f'/tmp/agent-prompt-{k}-w.txt','w').write(t.replace("Your task:\n", extra.replace("USED","\n".join(used.get(k,[])))))
+print(open('/tmp/agent-prompt-C06-w.txt').read()[2600:4200])
